@@ -7,7 +7,7 @@ from typing import List, Optional, Tuple
 
 from ..core import clone, Tree, Func, Module, dotted, src, body_walk
 from ..framework import Finding, RuleResult
-from ..norm import RoleSwap, canon, strip_stmts, first_difference, pretty
+from ..norm import RoleSwap, canon, strip_stmts, first_difference, pretty, try_fold
 
 SC = [("server", "client")]
 SC_PREFIX = [("s", "c")]
@@ -130,7 +130,14 @@ def _normalise_checksum_pair(stmts: List[ast.stmt]) -> List[ast.stmt]:
                     if base.endswith("_data"):
                         node.slice = ast.Slice(lower=ast.Name("CKSUM_LO", ast.Load()), upper=ast.Name("CKSUM_HI", ast.Load()))
             return node
-    return [T().visit(clone(s)) for s in stmts]
+    out = []
+    for s in stmts:
+        # named exception (one symbol): RFC 768 zero→0xffff mapping exists only for UDP; rule UDPZ checks it
+        if isinstance(s, ast.If) and isinstance(s.test, ast.Compare) and try_fold(s.test.comparators[0]) in (b"\x00\x00", 0) and not s.orelse \
+                and all(isinstance(b, ast.Assign) for b in s.body):
+            continue
+        out.append(T().visit(clone(s)))
+    return out
 
 
 def rule_B2(tree: Tree, pairs: Optional[List[str]] = None) -> RuleResult:
